@@ -142,7 +142,7 @@ fn observe<M: Manager>(m: &M, universe: &[String]) -> String {
 /// all names occurring in the ops of a case (hex), "" first
 fn universe(case: &Case) -> Vec<String> {
     let mut u: Vec<String> = Vec::new();
-    let mut add_list = |l: &str, u: &mut Vec<String>| {
+    let add_list = |l: &str, u: &mut Vec<String>| {
         if l != "." {
             u.extend(l.split(',').map(|s| s.to_string()));
         }
@@ -194,6 +194,27 @@ fn assignments(n: usize, base: u64, rng: &mut Rng) -> Vec<Vec<u8>> {
     }
 }
 
+/// Every manager owns a gc thread that only learns about the manager's end
+/// when it already waits on its condition variable; a manager that lives for
+/// a few microseconds leaves its thread behind (tens of thousands of them
+/// exhaust the address-space mappings of the process).  Finished managers
+/// are therefore parked and dropped `RETIRE_DEPTH` cases later.
+const RETIRE_DEPTH: usize = 256;
+static RETIRED: std::sync::Mutex<std::collections::VecDeque<Box<dyn std::any::Any + Send>>> =
+    std::sync::Mutex::new(std::collections::VecDeque::new());
+fn retire<T: Send + 'static>(x: T) {
+    let old = {
+        let mut q = RETIRED.lock().unwrap_or_else(|e| e.into_inner());
+        q.push_back(Box::new(x));
+        if q.len() > RETIRE_DEPTH {
+            q.pop_front()
+        } else {
+            None
+        }
+    };
+    drop(old);
+}
+
 fn perm(n: u32, seed: u64) -> Vec<VarNo> {
     let mut rng = Rng::new(seed);
     let mut p: Vec<VarNo> = (0..n).collect();
@@ -210,7 +231,7 @@ fn perm(n: u32, seed: u64) -> Vec<VarNo> {
 macro_rules! runner {
     ($fname:ident, $fun:ty, $newmgr:expr, $base:expr, $sem:expr,
      var: $mkvar:expr, and: $and:expr, or: $or:expr, not: $not:expr, eval: $eval:expr) => {
-        fn $fname(case: &Case, out: &mut dyn FnMut(String)) {
+        pub fn $fname(case: &Case, out: &mut dyn FnMut(String)) {
             let mref = $newmgr;
             let uni = universe(case);
             let mut handles: Vec<$fun> = Vec::new();
@@ -307,6 +328,7 @@ macro_rules! runner {
                 out(format!("{line} -> {res} # {obs}{sem}"));
             }
             drop(handles);
+            retire(mref);
         }
     };
 }
@@ -411,7 +433,7 @@ fn alphabet_small() -> Vec<String> {
 
 fn random_name(rng: &mut Rng) -> String {
     const POOL: &[&str] = &[
-        "a", "A", "b", "x0", "x1", " ", "a b", "\t", "\u{0}", "ä", "a\u{308}", "ß", "ſ", "Ω", "Ω", "变量", "переменная",
+        "a", "A", "b", "x0", "x1", " ", "a b", "\t", "\u{0}", "ä", "a\u{308}", "ß", "ſ", "\u{3a9}", "\u{2126}", "变量", "переменная",
         "🦀", "🦀🦀", "\u{feff}", "\u{200b}", "é", "e\u{301}", "x,y", "x;y", "x:y", "_", "-", ".", "#", "->",
     ];
     match rng.below(10) {
